@@ -2,6 +2,8 @@
 fresh ones."""
 import re
 
+import anchors
+
 import mir
 import ops
 import prov
@@ -101,6 +103,8 @@ def fresh_sites(prog):
                 c = f.call_at(cp[0][1])
                 if c is not None and (c.declared or "") == "std::sync::Arc::<T>::new":
                     fresh = True
+                elif c is not None and not c.is_ptr and c.res in anchors.cell_allocators(prog):
+                    fresh = True     # a helper that returns a cell it has just allocated
             out.append((f, kd["variant"], fresh, sp, cp))
     return out
 
@@ -112,7 +116,10 @@ def rule_R05_3(ctx):
                    "wrapping an existing Arc would alias an operand where a "
                    "new container is documented")
     sites = fresh_sites(prog)
-    r.require_floor("Value::List/Object construction sites", len(sites), 3)
+    # (a clean-up may centralise construction in one constructor per kind, so
+    # the floor is one site for each of the two kinds, not today's count)
+    r.require_floor("Value::List construction sites", len([x for x in sites if x[1] == "List"]), 1)
+    r.require_floor("Value::Object construction sites", len([x for x in sites if x[1] == "Object"]), 1)
     for f, v, fresh, sp, cp in sites:
         r.inst("%s: Value::%s from %s" % (f.path, v, "Arc::new" if fresh else cp))
         if fresh:
